@@ -56,7 +56,18 @@ static std::unique_ptr<file_server> direct;   // instance for direct calls, same
 static int port = 0;
 static bool unresponsive = false;  // a request got no reply: the event loop is stuck; do not wait 20 s for each further one
 
-static void run_service() { try { srv->run(); } catch(std::exception const &e) { fprintf(stderr,"service::run threw: %s\n",e.what()); abort(); } }
+static volatile bool run_failed = false, accepting = false;
+// run() throws when the port cannot be bound (another process took it between the probe and the bind):
+// before the service accepted its first connection that is a retry with another port; afterwards an
+// exception out of run() is the service dying on a request
+static void run_service()
+{
+	try { srv->run(); }
+	catch(std::exception const &e) {
+		if(!accepting) { run_failed=true; return; }
+		fprintf(stderr,"service::run threw: %s\n",e.what()); abort();
+	}
+}
 
 static void stop_service()
 {
@@ -113,25 +124,49 @@ static std::string start_service(config const &c)
 		v["file_server"]["alias"][i]["path"]=c.alias[i].second;
 	}
 	// pick a loopback port nobody listens on (other checks run concurrently)
-	if(port==0) port = 21000 + (getpid()*37)%20000;
-	for(int tries=0;tries<200;tries++) {
-		if(port_free(port)) break;
-		port++;
-		if(port>64000) port=21000;
-	}
-	v["service"]["port"]=port;
-	srv.reset(new cppcms::service(v));
-	if(c.async==2) {
-		// service.cpp mounts create_pool<file_server>() (async_ = false) even for file_server.async=true;
-		// this variant runs the async_file_handler path of main
-		srv->applications_pool().mount(cppcms::create_pool<file_server>(true),cppcms::mount_point(""),cppcms::app::asynchronous);
-	}
-	direct.reset(new file_server(*srv,c.async==2));
-	srv_thread.reset(new booster::thread(run_service));
-	for(int i=0;i<500;i++) {
-		int fd=connect_port(port);
-		if(fd>=0) { close(fd); return "ok"; }
-		usleep(10000);
+	if(port==0) port = getenv("C13_TEST_PORT") ? atoi(getenv("C13_TEST_PORT")) : 21000 + (getpid()*37)%20000;
+	for(int attempt=0;attempt<8;attempt++) {
+		for(int tries=0;tries<200;tries++) {
+			if(port_free(port) || getenv("C13_TEST_PORT")) break;   // the env variable (self-test only) skips the probe
+			port++;
+			if(port>64000) port=21000;
+		}
+		v["service"]["port"]=port;
+		run_failed=false; accepting=false;
+		srv.reset(new cppcms::service(v));
+		if(c.async==2) {
+			// service.cpp mounts create_pool<file_server>() (async_ = false) even for file_server.async=true;
+			// this variant runs the async_file_handler path of main
+			srv->applications_pool().mount(cppcms::create_pool<file_server>(true),cppcms::mount_point(""),cppcms::app::asynchronous);
+		}
+		direct.reset(new file_server(*srv,c.async==2));
+		srv_thread.reset(new booster::thread(run_service));
+		for(int i=0;i<1000 && !run_failed;i++) {
+			// ready = *this* service answers (a foreign listener on the port would also accept a connect)
+			int fd=connect_port(port);
+			if(fd>=0) {
+				char const rq[]="GET /__c13_probe HTTP/1.0\r\n\r\n";
+				::send(fd,rq,sizeof(rq)-1,MSG_NOSIGNAL);
+				std::string got;
+				for(int k=0;k<30 && !run_failed;k++) {
+					struct pollfd p; p.fd=fd; p.events=POLLIN; p.revents=0;
+					if(poll(&p,1,100)>0) {
+						char buf[2048]; ssize_t n=::recv(fd,buf,sizeof(buf),0);
+						if(n<=0) break;
+						got.append(buf,n);
+						if(got.find("CppCMS")!=std::string::npos) break;
+					}
+				}
+				close(fd);
+				if(!run_failed && got.find("CppCMS")!=std::string::npos) { accepting=true; return "ok"; }
+			}
+			usleep(10000);
+		}
+		// could not bind / did not come up: drop this instance and try the next port
+		direct.reset();
+		if(!run_failed) srv->shutdown();
+		srv_thread->join(); srv_thread.reset(); srv.reset();
+		port += 7;
 	}
 	return "service-did-not-start";
 }
